@@ -315,18 +315,21 @@ def case_stream(ctx, for_search=False):
     for arr in fixed:
         for s, t in settings:
             yield {"kind": "arr", "arr": arr, "sort": s, "trans": t}
+    thorough = ctx.tier == "thorough" or ctx.deep
     n1 = ctx.budget(4, 5, 5)
     for arr in small_arrangements(["a", "b", "1"], n1):
-        for s, t in (settings if len(arr) <= 3 else settings[:: 3] if ctx.tier != "thorough" and not ctx.deep else settings):
+        # short arrangements under all four settings, the longest ones under (on,on) and (off,off)
+        full = len(arr) <= (4 if thorough else 3)
+        for s, t in (settings if full else settings[::3]):
             yield {"kind": "arr", "arr": arr, "sort": s, "trans": t}
-    if ctx.tier == "thorough" or ctx.deep:
+    if thorough:
         for arr in small_arrangements(["a", "b", "c", "2"], 4):
-            for s, t in settings:
+            for s, t in (settings if len(arr) <= 3 else settings[1:3]):
                 yield {"kind": "arr", "arr": arr, "sort": s, "trans": t}
         for arr in small_arrangements(["a", "1"], 6, with_box=False):
             for s, t in settings[:2]:
                 yield {"kind": "arr", "arr": arr, "sort": s, "trans": t}
-    for i in range(ctx.budget(2000, 40000, 60000)):
+    for i in range(ctx.budget(2000, 30000, 45000)):
         s, t = settings[i % 4]
         yield {"kind": "arr", "arr": random_arrangement(ctx.rng, big=(i % 5 == 0)), "sort": s, "trans": t}
 
@@ -372,8 +375,8 @@ def corr_sphinx(ctx):
     """The same relation through Sphinx builds: one project per setting, one document per arrangement."""
     from gen.c11_docs import render, random_arrangement, small_arrangements
     from lib.impl import SphinxProject
-    arrs = [a for a in small_arrangements(["a", "b", "1"], 3)][:: 4]
-    arrs += [random_arrangement(ctx.rng, big=(i % 4 == 0)) for i in range(ctx.budget(0, 250, 250))]
+    arrs = [a for a in small_arrangements(["a", "b", "1"], 3)][:: 8]
+    arrs += [random_arrangement(ctx.rng, big=(i % 4 == 0)) for i in range(ctx.budget(0, 120, 120))]
     for s in (True, False):
         for t in (True, False):
             files = {"index.md": "# Index\n\n```{toctree}\n" + "\n".join(f"d{i}" for i in range(len(arrs))) + "\n```\n"}
@@ -400,7 +403,11 @@ def corr_sphinx(ctx):
                     continue
                 m = parse_model(reply, infos[i])
                 refs, foots, layout = abstract_tree(doc)
-                wl = sorted(int(x) for x in re.findall(rf"d{i}\.md:(\d+): WARNING: [^\n]*\[ref\.footnote\]", warns))
+                wl = sorted(int(x) for x in re.findall(rf"d{i}\.md(?:\.rst)?:(\d+): WARNING: [^\n]*\[ref\.footnote\]", warns))
+                # Sphinx removes system_message nodes from the tree (FilterSystemMessages)
+                if not m["exc"]:
+                    m["layout"] = [x if not x.startswith("B[") else "B[" + ",".join(i for i in x[2:-1].split(",") if i and i != "m") + "]"
+                                   for x in m["layout"] if x != "M"]
                 o = {"exc": None, "refs": refs, "foots": foots, "layout": layout, "wlines": wl, "errors": m.get("too_many", 0)}
                 d = compare(o, m)
                 if d is not None and len(ctx.disagreements) < 40:
